@@ -496,7 +496,7 @@ func (s *Sim) doAction(a *Action) {
 	case ActExtPut, ActExtDelete:
 		s.extWrite(a)
 	case ActProbe:
-		o := s.current(a.Inst)
+		o := s.probeTarget(a.Inst)
 		if o == nil {
 			return
 		}
@@ -506,7 +506,7 @@ func (s *Sim) doAction(a *Action) {
 		cancel()
 		s.apiEnd(o, r, ok, err)
 	case ActProbeDem:
-		o := s.current(a.Inst)
+		o := s.probeTarget(a.Inst)
 		if o == nil {
 			return
 		}
@@ -852,4 +852,21 @@ func (s *Sim) sleepOrCtx(ctx context.Context, d time.Duration) bool {
 		return true
 	}
 	return false
+}
+
+// probeTarget: instance index, or -2 = whichever election object currently reports leadership
+// (the first one; instance 0 when nobody does).
+func (s *Sim) probeTarget(inst int) *objRT {
+	if inst >= 0 {
+		return s.current(inst)
+	}
+	s.mu.Lock()
+	objs := append([]*objRT(nil), s.objs...)
+	s.mu.Unlock()
+	for _, o := range objs {
+		if o.el.IsLeader() {
+			return o
+		}
+	}
+	return s.current(0)
 }
